@@ -320,6 +320,47 @@ def sym_class(c: G, s) -> G:
     return c.with_("T", s) if isinstance(s, str) else c.with_("N", s)
 
 
+@lru_cache(maxsize=None)
+def reachable_letters(g: Grammar, sym) -> str:
+    """Terminal letters that can occur in a parse tree of the symbol."""
+    if isinstance(sym, str):
+        return sym
+    seen = set()
+    letters = set()
+    todo = [sym]
+    while todo:
+        n = todo.pop()
+        if n in seen:
+            continue
+        seen.add(n)
+        for alt in g[n]:
+            for s in alt:
+                if isinstance(s, str):
+                    letters.add(s)
+                else:
+                    todo.append(s)
+    return "".join(sorted(letters))
+
+
+def restricted(c: G, child: G) -> Tuple[G, Dict[str, str]]:
+    """The child with every statistic restricted to the letters that can occur in it
+    (statistics that become empty are dropped, equal ones merged) and the parameter map."""
+    letters = reachable_letters(c.grammar, child.ref if child.kind != "A" else child.ref[0])
+    if child.kind == "A":
+        alt = c.grammar[child.ref[0]][child.ref[1]]
+        letters = "".join(sorted(set("".join(reachable_letters(c.grammar, s) for s in alt))))
+    mapping: Dict[str, str] = {}
+    stats: List[str] = []
+    for s in c.stats:
+        r = "".join(ch for ch in s if ch in letters)
+        if not r:
+            continue
+        mapping["k_" + s] = "k_" + r
+        if r not in stats:
+            stats.append(r)
+    return G(child.grammar, child.kind, child.ref, stats), mapping
+
+
 def identity_map(c: G) -> Dict[str, str]:
     return {p: p for p in c.extra_parameters}
 
@@ -340,13 +381,24 @@ class _JsonMixin:
 
 
 class Unfold(_JsonMixin, DisjointUnionStrategy[G, Tree]):
-    """nonterminal = disjoint union of its alternatives (some may be empty)."""
+    """nonterminal = disjoint union of its alternatives (some may be empty).
+    skip: nonterminals to which the strategy does not apply (their alternatives stay hidden
+    from the search, so such a class can only be specified through other rules)."""
 
-    def __init__(self, **kw):
+    def __init__(self, skip=(), **kw):
+        self.skip = tuple(sorted(skip))
         super().__init__(**kw)
 
+    def to_jsonable(self) -> dict:
+        d = super().to_jsonable()
+        d["skip"] = list(self.skip)
+        return d
+
+    def __repr__(self) -> str:
+        return f"Unfold(skip={self.skip})" if self.skip else "Unfold()"
+
     def decomposition_function(self, c: G):
-        if c.kind != "N":
+        if c.kind != "N" or c.ref in self.skip:
             return None
         return tuple(c.with_("A", (c.ref, i)) for i in range(len(c.grammar[c.ref])))
 
@@ -405,17 +457,20 @@ class Factor(_JsonMixin, CartesianProductStrategy[G, Tree]):
     factors one-symbol alternatives (a one-factor product; only used by the dedicated
     sub-run for the known finding D10, never in the default alphabets)."""
 
-    def __init__(self, allow_one: bool = False, **kw):
+    def __init__(self, allow_one: bool = False, norm: bool = False, **kw):
         self.allow_one = allow_one
+        self.norm = norm  # factors carry statistics restricted to the letters they can contain
         super().__init__(**kw)
 
     def to_jsonable(self) -> dict:
         d = super().to_jsonable()
         d["allow_one"] = self.allow_one
+        d["norm"] = self.norm
         return d
 
     def __repr__(self) -> str:
-        return "Factor(allow_one=True)" if self.allow_one else "Factor()"
+        args = [f"{k}=True" for k in ("allow_one", "norm") if getattr(self, k)]
+        return f"Factor({', '.join(args)})"
 
     def decomposition_function(self, c: G):
         if c.kind != "A" or c.is_empty():
@@ -423,11 +478,17 @@ class Factor(_JsonMixin, CartesianProductStrategy[G, Tree]):
         alt = c.grammar[c.ref[0]][c.ref[1]]
         if len(alt) < (1 if self.allow_one else 2):
             return None
-        return tuple(sym_class(c, s) for s in alt)
+        children = tuple(sym_class(c, s) for s in alt)
+        if self.norm:
+            children = tuple(restricted(c, ch)[0] for ch in children)
+        return children
 
     def extra_parameters(self, c: G, children=None):
         if children is None:
             children = self.decomposition_function(c)
+        if self.norm:
+            alt = c.grammar[c.ref[0]][c.ref[1]]
+            return tuple(restricted(c, sym_class(c, s))[1] for s in alt)
         return tuple(identity_map(c) for _ in children)
 
     def formal_step(self) -> str:
@@ -502,7 +563,94 @@ class GAtom(VerificationStrategy[G, Tree]):
         return "verify terminals"
 
 
+class GVerify(VerificationStrategy[G, Tree]):
+    """Verifies the given alternative classes by plain enumeration (no pack)."""
+
+    def __init__(self, alts=(), ignore_parent: bool = False):
+        self.alts = tuple(sorted(tuple(a) for a in alts))
+        super().__init__(ignore_parent=ignore_parent)
+
+    def verified(self, c: G) -> bool:
+        return c.kind == "A" and tuple(c.ref) in self.alts and not c.is_empty()
+
+    def formal_step(self) -> str:
+        return f"verified alternative {self.alts}"
+
+    def get_terms(self, c: G, n: int):
+        return brute_terms(c, n)
+
+    def get_objects(self, c: G, n: int):
+        res = defaultdict(list)
+        for t in trees(c.grammar, c.sym(), n):
+            res[c.get_parameters(t)].append(t)
+        return res
+
+    def get_genf(self, c: G, funcs=None):
+        raise NotImplementedError("no closed form for a class verified by enumeration")
+
+    def random_sample_object_of_size(self, c: G, n: int, **parameters: int):
+        import comb_spec_searcher.strategies.rule as rl
+
+        return rl.random.choice(list(c.objects_of_size(n, **parameters)))
+
+    def pack(self, c: G) -> StrategyPack:
+        raise InvalidOperationError("no pack")
+
+    def to_jsonable(self) -> dict:
+        d = super().to_jsonable()
+        d["alts"] = [list(a) for a in self.alts]
+        return d
+
+    @classmethod
+    def from_dict(cls, d: dict) -> "GVerify":
+        return cls(tuple(tuple(a) for a in d["alts"]), ignore_parent=d.get("ignore_parent", False))
+
+    def __repr__(self) -> str:
+        return f"GVerify({self.alts})"
+
+    def __str__(self) -> str:
+        return self.formal_step()
+
+
+from comb_spec_searcher import StrategyFactory as _StrategyFactory  # noqa: E402
+
+
+class GContext(_StrategyFactory[G]):
+    """For a nonterminal class, yields the factoring rule of every alternative in which the
+    nonterminal occurs (rules whose parent differs from the expanded class)."""
+
+    def __call__(self, c: G):
+        if c.kind != "N":
+            return
+        for j, alts in enumerate(c.grammar):
+            for k, alt in enumerate(alts):
+                if c.ref in alt and len(alt) >= 2:
+                    yield Factor()(c.with_("A", (j, k)))
+
+    def __str__(self) -> str:
+        return "context factory"
+
+    def __repr__(self) -> str:
+        return "GContext()"
+
+    @classmethod
+    def from_dict(cls, d: dict) -> "GContext":
+        return cls()
+
+
 def g_pack(name: str = "g") -> StrategyPack:
+    if name.startswith("grev"):
+        # "grev|skip=1,2|ver=3.0" : hidden nonterminals, alternatives verified by enumeration
+        opts = dict(x.split("=") for x in name.split("|")[1:])
+        skip = tuple(int(x) for x in opts.get("skip", "").split(",") if x)
+        ver = tuple(tuple(int(y) for y in x.split(".")) for x in opts.get("ver", "").split(",") if x)
+        return StrategyPack(
+            initial_strats=[],
+            inferral_strats=[],
+            expansion_strats=[[Unfold(skip=skip), Factor(), Unit(), GContext()]],
+            ver_strats=[GAtom(), GVerify(ver)],
+            name=name,
+        )
     feats = name.split("+")
     return StrategyPack(
         initial_strats=[],
@@ -521,7 +669,7 @@ def g_pack(name: str = "g") -> StrategyPack:
 
 
 def g_strategies() -> List[Any]:
-    return [Unfold(), Factor(), Unit()]
+    return [Unfold(), Factor(), Unit(), Factor(norm=True)]
 
 
 # ---------------------------------------------------------------------------
@@ -553,6 +701,33 @@ def one_factor_products(g: Grammar) -> bool:
 
 
 @lru_cache(maxsize=None)
+def reverse_universes() -> List[Tuple[Grammar, str, bool]]:
+    """(grammar, pack name, genuine specification exists) for universes in which the start
+    class R = N0 -> N1 b needs the class B = N1, whose alternatives are hidden: B is only
+    available as the quotient P / C of the verified alternative P = N3 -> N1 N2 (C = N2).
+    With C hidden as well the two quotient rules rely on each other and nothing exists."""
+    shapes = [
+        (("a", 1), ()),          # X -> a X | e
+        (("a", "a", 1), ("a",)),  # X -> a a X | a
+        ((1, "a"), ("b",)),      # X -> X a | b   (left recursive; index patched below)
+        (("a",), ("b", "b")),    # finite
+    ]
+
+    def nt(shape, idx):
+        return tuple(tuple(idx if s == 1 else s for s in alt) for alt in shape)
+
+    res = []
+    for s1 in shapes:
+        for s2 in shapes:
+            # R -> B b | P   (P occurs as a child, so it is looked at and verified)
+            g: Grammar = (((1, "b"), (3,)), nt(s1, 1), nt(s2, 2), ((1, 2),))
+            if not is_proper(g):
+                continue
+            res.append((g, "grev|skip=1|ver=3.0", True))
+            res.append((g, "grev|skip=1,2|ver=3.0", False))
+    return res
+
+
 def grammars(family: str) -> Tuple[Grammar, ...]:
     """Proper grammars in which every nonterminal is reachable from the first.
     'one'   : 1 nonterminal, <= 2 alternatives of <= 3 symbols over {a, b, N0}
@@ -672,9 +847,15 @@ def gate_rule(rule, N: int) -> Optional[str]:
                 return "product sizes do not add"
             if list(rule.backward_map(img)) != [o]:
                 return "product backward_map"
-            ps = [ch.get_parameters(x) for ch, x in zip(children, img)]
-            if tuple(map(sum, zip(*ps))) != c.get_parameters(o) and c.stats:
-                return "product parameters do not add"
+            ep = strat.extra_parameters(c, children)
+            pv = dict(zip(c.extra_parameters, c.get_parameters(o)))
+            for pk, val in pv.items():
+                tot = 0
+                for ch, x, m in zip(children, img, ep):
+                    if pk in m:
+                        tot += dict(zip(ch.extra_parameters, ch.get_parameters(x)))[m[pk]]
+                if tot != val:
+                    return f"product parameter {pk} does not add over the factors"
             seen_t.add(img)
         for t in product(*[sorted(s) for s in child_sets]):
             if sum(x.size() for x in t) <= N and t not in seen_t:
